@@ -23,6 +23,7 @@ Definition corr_live (c : c19_case) (l : live) : bool :=
                         | None => false
                         | Some d => match prev_decl (c_before c) (fst m) (snd m) with
                                     | Some p => String.eqb (d_body d) (d_body p) && String.eqb (d_rawdoc d) (d_doc p)
+                                                && String.eqb (d_results d) (d_results p)
                                                 (* the doc comment is re-emitted from CommentGroup.Text() *)
                                     | None => true       (* a new resolver: generated stub *)
                                     end
@@ -77,7 +78,7 @@ Definition mon_bodies (with_doc : bool) (c : c19_case) : bool :=
                                | KMethod r n =>
                                    if String.eqb r "Resolver" then true else
                                    match prev_decl (c_before c) r n with
-                                   | Some p => String.eqb (d_body d) (d_body p) &&
+                                   | Some p => String.eqb (d_body d) (d_body p) && String.eqb (d_results d) (d_results p) &&
                                                (if with_doc then String.eqb (d_rawdoc d) (d_rawdoc p) else String.eqb (d_doc d) (d_doc p))
                                    | None => true
                                    end
